@@ -214,6 +214,41 @@ impl<'de> Deserializer<'de> for ScriptDe {
     }
 }
 
+/// answers every request through one chosen `Visitor` method that is not `visit_seq`
+struct AltDe<'a> {
+    kind: u8,
+    bytes: &'a [u8],
+}
+struct NoEntries;
+impl<'de> serde::de::MapAccess<'de> for NoEntries {
+    type Error = E;
+    fn next_key_seed<K: DeserializeSeed<'de>>(&mut self, _seed: K) -> Result<Option<K::Value>, E> {
+        Ok(None)
+    }
+    fn next_value_seed<V: DeserializeSeed<'de>>(&mut self, _seed: V) -> Result<V::Value, E> {
+        Err(E("no value".into()))
+    }
+}
+impl<'de> Deserializer<'de> for AltDe<'de> {
+    type Error = E;
+    fn deserialize_any<V: Visitor<'de>>(self, visitor: V) -> Result<V::Value, E> {
+        let text = || String::from_utf8_lossy(self.bytes).into_owned();
+        match self.kind {
+            0 => visitor.visit_bytes(&self.bytes.to_vec()),
+            1 => visitor.visit_byte_buf(self.bytes.to_vec()),
+            2 => visitor.visit_borrowed_bytes(self.bytes),
+            3 => visitor.visit_str(&text()),
+            4 => visitor.visit_string(text()),
+            5 => visitor.visit_map(NoEntries),
+            _ => visitor.visit_unit(),
+        }
+    }
+    serde::forward_to_deserialize_any! {
+        bool i8 i16 i32 i64 i128 u8 u16 u32 u64 u128 f32 f64 char str string bytes byte_buf option unit unit_struct newtype_struct seq
+        tuple tuple_struct map struct enum identifier ignored_any
+    }
+}
+
 // ------------------------------------------------------------------------------------------------
 
 #[derive(Clone, Copy, Debug, serde::Serialize, Deserialize, PartialEq, Eq, Hash)]
@@ -236,6 +271,10 @@ pub enum Op {
     Script(Script),
     /// the same with zero-sized drop-tracked elements
     ScriptZst(Script),
+    /// a deserializer that answers `deserialize_tuple(N)` through another `Visitor` method than `visit_seq`, offering `c` elements
+    /// (compact binary formats hand byte arrays over as one byte string): kind 0 visit_bytes, 1 visit_byte_buf,
+    /// 2 visit_borrowed_bytes, 3 visit_str, 4 visit_string, 5 visit_map (empty, c = 0), 6 visit_unit (c = 0); `u8` elements
+    AltEntry(u8, usize),
     /// arrays of 1 MiB and more: 0 = 2 MiB of u64 via bincode, 1 = exactly 1 MiB of u8 via bincode, 2 = 2 MiB of u8 via bincode,
     /// 3 = 2 MiB of u32 from the scripted source with an exact hint, 4 = the same, one element short
     Large(u8),
@@ -445,6 +484,27 @@ fn exec_n<N: ArrayLength>(case: &Case, acc: &mut Acc) -> Result<(), String> {
             acc.count(nontrivial, case);
             acc.class(if expect_ok { "script_accept" } else if !hint_ok { "script_reject_upfront_hint" } else if s.c != n { "script_reject_count" } else { "script_reject_element_error" });
         }
+        Op::AltEntry(kind, c) => {
+            let c = if *kind >= 5 { 0 } else { *c };
+            let bytes: Vec<u8> = (0..c).map(|i| b'a' + ((base as usize + i) % 26) as u8).collect();
+            let r = engine::catch(|| GenericArray::<u8, N>::deserialize(AltDe { kind: *kind, bytes: &bytes }));
+            let r = match r {
+                Ok(r) => r,
+                Err(c) => return Err(format!("deserialisation panicked instead of returning a result: {}", c.msg)),
+            };
+            // whether such input is understood at all is the implementation's choice; what it may never do is hand back an array
+            // for input that offers another number of elements than N, or other elements than were offered
+            if let Ok(a) = r {
+                if c != n {
+                    return Err(format!("accepted input offering {c} elements (through Visitor method #{kind}, see Op::AltEntry) for N = {n}"));
+                }
+                if a.as_slice() != &bytes[..] {
+                    return Err("the array returned differs from the elements offered".into());
+                }
+            }
+            acc.count(c != n, case);
+            acc.class("other_visitor_entry_points");
+        }
         Op::ScriptZst(s) => {
             let r = engine::catch(|| GenericArray::<TrackedZst, N>::deserialize(ScriptDe { s: *s, base }));
             let r = match r {
@@ -565,6 +625,13 @@ pub fn main() {
             g.push(Case { n, op: Op::BincodeTruncated(k), base: rnd() });
         }
         let cs: Vec<usize> = if n <= 12 { (0..=n + 2).collect() } else { vec![0, n - 1, n, n + 1, n + 2] };
+        for kind in 0..7u8 {
+            for &c in &cs {
+                if kind < 5 || c == 0 {
+                    g.push(Case { n, op: Op::AltEntry(kind, c), base: rnd() });
+                }
+            }
+        }
         for c in cs {
             for upfront in [None, Some(n), Some(n.saturating_sub(1)), Some(n + 1), Some(c), Some(0)] {
                 for later_hints in [false, true] {
@@ -603,7 +670,7 @@ pub fn main() {
         Report {
             prop: PROP,
             level: "exploration",
-            rule: "case = (N in the 34-length lattice, operation, seeded values). Formats: a recording Serializer must see serialize_tuple(N), exactly N elements in index order, end; bincode bytes must equal the concatenation of the element encodings (and the native tuple's for arities 1,2,3,4,7,12); JSON must equal the JSON of the Vec; JSON text, serde_json::Value and bincode round trips for u8/u32/f64/String/drop-tracked elements. Rejection: JSON lists with 0, N-1, N, N+1, N+2 items (text and Value), bincode input truncated at every element boundary, and a scripted deserializer delivering every count 0..=N+2 with every up-front hint (none, N, N-1, N+1, the true count, 0), truthful or absent later hints, an element error at every index, a deserializer that calls itself human-readable or not, entry through deserialize and through deserialize_in_place (24-byte and zero-sized drop-tracked elements); arrays of 1 MiB and 2 MiB through bincode and through the scripted source with an exact hint. \
+            rule: "case = (N in the 34-length lattice, operation, seeded values). Formats: a recording Serializer must see serialize_tuple(N), exactly N elements in index order, end; bincode bytes must equal the concatenation of the element encodings (and the native tuple's for arities 1,2,3,4,7,12); JSON must equal the JSON of the Vec; JSON text, serde_json::Value and bincode round trips for u8/u32/f64/String/drop-tracked elements. Rejection: JSON lists with 0, N-1, N, N+1, N+2 items (text and Value), bincode input truncated at every element boundary, and a scripted deserializer delivering every count 0..=N+2 with every up-front hint (none, N, N-1, N+1, the true count, 0), truthful or absent later hints, an element error at every index, a deserializer that calls itself human-readable or not, entry through deserialize and through deserialize_in_place (24-byte and zero-sized drop-tracked elements); a deserializer that answers deserialize_tuple(N) through visit_bytes / visit_byte_buf / visit_borrowed_bytes / visit_str / visit_string / an empty visit_map / visit_unit offering every count 0..=N+2 (u8 elements: an array may come back only for exactly N elements, and then holds them); arrays of 1 MiB and 2 MiB through bincode and through the scripted source with an exact hint. \
                    Oracle: Ok iff (up-front hint absent or = N) and count = N and no error at a reached index; on Err every element the source produced has been dropped and nothing is returned; deserialisation never panics. \
                    non-trivial = rejecting cases and round trips with N >= 1; distinct = distinct case tuples",
             exhaustive: false,
